@@ -11,6 +11,7 @@ import CookModel.Lemmas.DiagInterRef
 import CookModel.Lemmas.DiagRefChecks
 import CookModel.Lemmas.DiagExact
 import CookModel.Lemmas.ExtLawsEvents
+import CookModel.Lemmas.DiagExactComp
 /-
   C07  Diagnostics are sound, complete and placed on the offending construct.
 
@@ -1184,6 +1185,112 @@ example : let s : BP Rat := ⟨[⟨.at, ['@'], 0⟩, ⟨.punct, ['!'], 1⟩], 1,
   intro t ht
   simp only [List.getElem?_cons_succ, List.getElem?_cons_zero, Option.some.injEq] at ht
   subst ht; rfl
+
+/-! ### `invalid-single-word-name` at the level of the component and of the step loop
+
+  `Head k s mtoks s1 s2`: from state `s` the marker `k` was consumed (state `s1`) and `modifiers()`
+  returned `mtoks` (state `s2`; these two steps push nothing: `Head.same`).
+  `longBody r`: the long form `name{…}` read from the tokens `r` — the tokens up to the first `{` with no
+  marker before it, then the tokens up to the first `}` — or `none` when there is none (no `{` before the
+  next marker, or no `}` after it).  `s2.rest` = the tokens from the cursor on.
+  `isShortK k`: `k` is a word / number token (what a single-word name is made of). -/
+
+/-- **When do `ingredient` / `cookware` / `timer` decline?**  After the marker and the modifiers the
+    parser returns `None` EXACTLY when no long form `name{…}` lies ahead and the token at the cursor is
+    not a word/number token (or the block ends); without the marker at the cursor it returns `None`
+    and changes nothing. -/
+theorem C07_component_declines (s s1 s2 : BP α) (mtoks : List Tok) :
+    (Head .at s mtoks s1 s2 → ((ingredientP s).1 = none ↔
+      (longBody s2.rest = none ∧ ∀ t, s2.toks[s2.cur]? = some t → isShortK t.kind = false))) ∧
+    (Head .hash s mtoks s1 s2 → ((cookwareP s).1 = none ↔
+      (longBody s2.rest = none ∧ ∀ t, s2.toks[s2.cur]? = some t → isShortK t.kind = false))) ∧
+    (Head .tilde s mtoks s1 s2 → ((timerP s).1 = none ↔
+      (longBody s2.rest = none ∧ ∀ t, s2.toks[s2.cur]? = some t → isShortK t.kind = false))) ∧
+    ((∀ t, s.toks[s.cur]? = some t → t.kind ≠ .at) → ingredientP s = (none, s)) ∧
+    ((∀ t, s.toks[s.cur]? = some t → t.kind ≠ .hash) → cookwareP s = (none, s)) ∧
+    ((∀ t, s.toks[s.cur]? = some t → t.kind ≠ .tilde) → timerP s = (none, s)) := by
+  obtain ⟨h1, h2, h3⟩ := c07x_comp_none_iff (α := α) (s := s) (s1 := s1) (s2 := s2) (mtoks := mtoks)
+  obtain ⟨n1, n2, n3⟩ := c07x_comp_nomarker s
+  exact ⟨fun hh => (h1 hh).trans (c07x_compBody_none_iff s2), fun hh => (h2 hh).trans (c07x_compBody_none_iff s2),
+    fun hh => (h3 hh).trans (c07x_compBody_none_iff s2), n1, n2, n3⟩
+
+/-- **Invalid single-word name, at the level of the component, exactly** (lifts
+    `C07_invalid_single_word_name_partial`; `@!x`, `#(`, `~,`).
+    (⇐) When the parser declines after the marker and the modifiers (`C07_component_declines`), the run
+    is exactly: no component, the cursor after the modifiers, and the events `singleWordWarn s2` pushed —
+    the one warning `invalid-single-word-name` (warning, parse, labelled with the position after the
+    marker/modifiers) iff a token other than whitespace is at the cursor, nothing otherwise.
+    (⇒) Conversely, for EVERY state: if the warning `invalid-single-word-name` with labels `sp` is among
+    the events a run of `ingredient` (`cookware`, `timer`) pushed, then the marker was there, no long
+    form `name{…}` lies ahead after the modifiers, the token at that cursor exists, is not whitespace and
+    not a word/number token, `sp` is that position, the parser returned `None`, and the events pushed
+    are exactly that one warning.  No other part of the three parsers (alias, modifiers, quantity,
+    note, timer checks) ever pushes this warning. -/
+theorem C07_invalid_single_word_name (s : BP α) :
+    (∀ s1 s2 mtoks, longBody s2.rest = none → (∀ t, s2.toks[s2.cur]? = some t → isShortK t.kind = false) →
+      (Head .at s mtoks s1 s2 → ingredientP s = (none, pushAll (singleWordWarn s2) s2)) ∧
+      (Head .hash s mtoks s1 s2 → cookwareP s = (none, pushAll (singleWordWarn s2) s2)) ∧
+      (Head .tilde s mtoks s1 s2 → timerP s = (none, pushAll (singleWordWarn s2) s2))) ∧
+    (∀ (k : TK) (compP : P α (Option (Ev α))),
+      ((k = .at ∧ compP = ingredientP) ∨ (k = .hash ∧ compP = cookwareP) ∨ (k = .tilde ∧ compP = timerP)) →
+      ∀ l' sp, (compP s).2.evs.toList = s.evs.toList ++ l' →
+        Ev.warning ⟨.warning, .parse, "invalid-single-word-name", sp⟩ ∈ l' →
+        ∃ mtoks s1 s2, Head k s mtoks s1 s2 ∧ longBody s2.rest = none ∧
+          (∃ t, s2.toks[s2.cur]? = some t ∧ t.kind ≠ .ws ∧ isShortK t.kind = false) ∧
+          sp = [Span.pos (curOff s2)] ∧ compP s = (none, pushAll (singleWordWarn s2) s2) ∧
+          l' = [.warning ⟨.warning, .parse, "invalid-single-word-name", [Span.pos (curOff s2)]⟩]) := by
+  refine ⟨fun s1 s2 mtoks hl hns => ?_, ?_⟩
+  · have hb := c07x_compBody_decline s2 hl hns
+    exact ⟨fun hh => c07x_ingredientP_of_body_none hh hb, fun hh => c07x_cookwareP_of_body_none hh hb,
+      fun hh => c07x_timerP_of_body_none hh hb⟩
+  · intro k compP hk l' sp hl' hmem
+    have key : ∃ mtoks s1 s2, Head k s mtoks s1 s2 ∧ longBody s2.rest = none ∧
+        (∃ t, s2.toks[s2.cur]? = some t ∧ t.kind ≠ .ws ∧ isShortK t.kind = false) ∧
+        sp = [Span.pos (curOff s2)] ∧ compP s = (none, pushAll (singleWordWarn s2) s2) ∧
+        l' = singleWordWarn s2 := by
+      rcases hk with ⟨rfl, rfl⟩ | ⟨rfl, rfl⟩ | ⟨rfl, rfl⟩
+      · exact c07x_sw_only_when .at ingredientP s (c07x_comp_nomarker s).1
+          (fun _ _ _ _ hh hb => c07x_ingredientP_of_body_none hh hb)
+          (fun _ _ _ _ _ hc => c07x_ingredientP_succ_notSW hc) l' hl' sp hmem
+      · exact c07x_sw_only_when .hash cookwareP s (c07x_comp_nomarker s).2.1
+          (fun _ _ _ _ hh hb => c07x_cookwareP_of_body_none hh hb)
+          (fun _ _ _ _ _ hc => c07x_cookwareP_succ_notSW hc) l' hl' sp hmem
+      · exact c07x_sw_only_when .tilde timerP s (c07x_comp_nomarker s).2.2
+          (fun _ _ _ _ hh hb => c07x_timerP_of_body_none hh hb)
+          (fun _ _ _ _ _ hc => c07x_timerP_succ_notSW hc) l' hl' sp hmem
+    obtain ⟨mtoks, s1, s2, hh, hl, ⟨t, ht, hw, hk'⟩, hsp, hrun, hl''⟩ := key
+    refine ⟨mtoks, s1, s2, hh, hl, ⟨t, ht, hw, hk'⟩, hsp, hrun, ?_⟩
+    rw [hl'']
+    unfold singleWordWarn curOff
+    simp only [ht, hw, if_false]
+
+/-- **… and the component is then text.**  In the loop body of `parse_step` (`stepOne`), from a state
+    without an earlier panic and the cursor inside the block: when the component parser declines after
+    the marker and the modifiers, `with_recover` puts the cursor back on the marker, the events pushed
+    are exactly `singleWordWarn s2`, and the iteration continues as the TEXT branch (`stepTail none`:
+    the marker token and everything up to the next marker become a text item) from that state. -/
+theorem C07_invalid_single_word_name_then_text (s s1 s2 : BP α) (mtoks : List Tok) (hp : s.panic = none)
+    (hcur : s.cur ≤ s.toks.length) (hl : longBody s2.rest = none)
+    (hns : ∀ t, s2.toks[s2.cur]? = some t → isShortK t.kind = false)
+    (hh : Head .at s mtoks s1 s2 ∨ Head .hash s mtoks s1 s2 ∨ Head .tilde s mtoks s1 s2) :
+    stepOne s = stepTail none (pushAll (singleWordWarn s2) s) :=
+  c07x_stepOne_decline hp hcur hl hns hh
+
+/-! non-vacuity: `@!x` — after the `@` no `{` follows and `!` is no word token; one warning at offset 1;
+    the loop body then yields that warning and one text event -/
+def C07_exBang : BP Rat :=
+  ⟨[⟨.at, ['@'], 0⟩, ⟨.punct, ['!'], 1⟩, ⟨.word, ['x'], 2⟩], 0, ⟨0⟩, toyCharSpec, #[], none⟩
+example : ∃ s1 s2, Head .at C07_exBang [] s1 s2 ∧ longBody s2.rest = none ∧
+    (∀ t, s2.toks[s2.cur]? = some t → isShortK t.kind = false) ∧
+    singleWordWarn s2 = [.warning ⟨.warning, .parse, "invalid-single-word-name", [⟨1, 1⟩]⟩] := by
+  refine ⟨_, _, ⟨⟨_, rfl⟩, rfl⟩, rfl, ?_, rfl⟩
+  intro t ht
+  have : t = ⟨.punct, ['!'], 1⟩ := by
+    have h : (some ⟨.punct, ['!'], 1⟩ : Option Tok) = some t := ht
+    exact (Option.some.inj h).symm
+  subst this; rfl
+example : ∃ t, (stepOne C07_exBang).2.evs =
+    #[.warning ⟨.warning, .parse, "invalid-single-word-name", [⟨1, 1⟩]⟩, .text t] := ⟨_, rfl⟩
 
 /-! ### Soundness on whole recipes
 
